@@ -8,6 +8,15 @@
 //! `/proc/self/fd/<fd>` at call time, mapped address ranges through a registry of the `mmap`
 //! calls seen while tracking was on. All buffers are plain `Mutex<Vec<..>>`; the hooks never
 //! call an interposed function themselves.
+//!
+//! Extension for c16t (errno injection in worker threads; OFF by default, the journal above and
+//! the behaviour of the calls are unchanged while it is off): a second, extended journal
+//! (`XEvent`: syscall class, file class, thread id, result) that is recorded only after
+//! `xenable(Some(dir))`, additional interposed calls (`write`, `pwrite(64)`, `read`,
+//! `pread(64)`, `open(64)`, `openat(64)`, `lseek(64)`), and a global injection plan (`arm`):
+//! after the N-th matching call (by syscall class and file class of a file below `dir`) on a
+//! thread that is not registered as exempt, this and every later matching call fails with the
+//! planned errno (optionally after a delay) WITHOUT reaching the kernel.
 #![allow(clippy::missing_safety_doc)]
 use libc::{c_char, c_int, c_void, off_t, size_t};
 use std::sync::atomic::{AtomicBool, AtomicU64, AtomicUsize, Ordering};
@@ -117,9 +126,18 @@ macro_rules! real_fn {
 #[no_mangle]
 pub unsafe extern "C" fn fdatasync(fd: c_int) -> c_int {
 	let f = real_fn!("fdatasync", unsafe extern "C" fn(c_int) -> c_int);
+	let x = xpath_fd(fd);
+	if let Some(p) = &x {
+		if let Some(e) = inject(S_FDATASYNC, p) {
+			return fail_int(S_FDATASYNC, p, 0, e)
+		}
+	}
 	let r = f(fd);
 	if enabled() {
 		record(Call::Fdatasync, fd_path(fd), r as i64);
+	}
+	if let Some(p) = x {
+		xrecord(S_FDATASYNC, p, 0, r as i64, false, vec![]);
 	}
 	r
 }
@@ -127,9 +145,18 @@ pub unsafe extern "C" fn fdatasync(fd: c_int) -> c_int {
 #[no_mangle]
 pub unsafe extern "C" fn fsync(fd: c_int) -> c_int {
 	let f = real_fn!("fsync", unsafe extern "C" fn(c_int) -> c_int);
+	let x = xpath_fd(fd);
+	if let Some(p) = &x {
+		if let Some(e) = inject(S_FSYNC, p) {
+			return fail_int(S_FSYNC, p, 0, e)
+		}
+	}
 	let r = f(fd);
 	if enabled() {
 		record(Call::Fsync, fd_path(fd), r as i64);
+	}
+	if let Some(p) = x {
+		xrecord(S_FSYNC, p, 0, r as i64, false, vec![]);
 	}
 	r
 }
@@ -137,9 +164,18 @@ pub unsafe extern "C" fn fsync(fd: c_int) -> c_int {
 #[no_mangle]
 pub unsafe extern "C" fn ftruncate(fd: c_int, len: off_t) -> c_int {
 	let f = real_fn!("ftruncate", unsafe extern "C" fn(c_int, off_t) -> c_int);
+	let x = xpath_fd(fd);
+	if let Some(p) = &x {
+		if let Some(e) = inject(S_TRUNC, p) {
+			return fail_int(S_TRUNC, p, len as u64, e)
+		}
+	}
 	let r = f(fd, len);
 	if enabled() {
 		record(Call::Truncate { len: len as u64 }, fd_path(fd), r as i64);
+	}
+	if let Some(p) = x {
+		xrecord(S_TRUNC, p, len as u64, r as i64, false, vec![]);
 	}
 	r
 }
@@ -147,9 +183,18 @@ pub unsafe extern "C" fn ftruncate(fd: c_int, len: off_t) -> c_int {
 #[no_mangle]
 pub unsafe extern "C" fn ftruncate64(fd: c_int, len: libc::off64_t) -> c_int {
 	let f = real_fn!("ftruncate64", unsafe extern "C" fn(c_int, libc::off64_t) -> c_int);
+	let x = xpath_fd(fd);
+	if let Some(p) = &x {
+		if let Some(e) = inject(S_TRUNC, p) {
+			return fail_int(S_TRUNC, p, len as u64, e)
+		}
+	}
 	let r = f(fd, len);
 	if enabled() {
 		record(Call::Truncate { len: len as u64 }, fd_path(fd), r as i64);
+	}
+	if let Some(p) = x {
+		xrecord(S_TRUNC, p, len as u64, r as i64, false, vec![]);
 	}
 	r
 }
@@ -165,9 +210,18 @@ unsafe fn cstr(p: *const c_char) -> String {
 pub unsafe extern "C" fn unlink(path: *const c_char) -> c_int {
 	let f = real_fn!("unlink", unsafe extern "C" fn(*const c_char) -> c_int);
 	let name = if enabled() { Some(cstr(path)) } else { None };
+	let x = xpath_str(|| cstr(path));
+	if let Some(p) = &x {
+		if let Some(e) = inject(S_UNLINK, p) {
+			return fail_int(S_UNLINK, p, 0, e)
+		}
+	}
 	let r = f(path);
 	if let Some(n) = name {
 		record(Call::Unlink, n, r as i64);
+	}
+	if let Some(p) = x {
+		xrecord(S_UNLINK, p, 0, r as i64, false, vec![]);
 	}
 	r
 }
@@ -181,9 +235,29 @@ pub unsafe extern "C" fn unlinkat(dirfd: c_int, path: *const c_char, flags: c_in
 	} else {
 		None
 	};
+	let x = if flags & libc::AT_REMOVEDIR == 0 {
+		xpath_str(|| {
+			let p = cstr(path);
+			if p.starts_with('/') || dirfd == libc::AT_FDCWD {
+				p
+			} else {
+				format!("{}/{}", fd_path(dirfd), p)
+			}
+		})
+	} else {
+		None
+	};
+	if let Some(p) = &x {
+		if let Some(e) = inject(S_UNLINK, p) {
+			return fail_int(S_UNLINK, p, 0, e)
+		}
+	}
 	let r = f(dirfd, path, flags);
 	if let Some(n) = name {
 		record(Call::Unlink, n, r as i64);
+	}
+	if let Some(p) = x {
+		xrecord(S_UNLINK, p, 0, r as i64, false, vec![]);
 	}
 	r
 }
@@ -200,16 +274,36 @@ unsafe fn note_mmap(ret: *mut c_void, len: size_t, flags: c_int, fd: c_int, off:
 #[no_mangle]
 pub unsafe extern "C" fn mmap(addr: *mut c_void, len: size_t, prot: c_int, flags: c_int, fd: c_int, off: off_t) -> *mut c_void {
 	let f = real_fn!("mmap", unsafe extern "C" fn(*mut c_void, size_t, c_int, c_int, c_int, off_t) -> *mut c_void);
+	let x = if fd >= 0 && flags & libc::MAP_ANONYMOUS == 0 { xpath_fd(fd) } else { None };
+	if let Some(p) = &x {
+		if let Some(e) = inject(S_MMAP, p) {
+			fail_int(S_MMAP, p, len as u64, e);
+			return libc::MAP_FAILED
+		}
+	}
 	let r = f(addr, len, prot, flags, fd, off);
 	note_mmap(r, len, flags, fd, off as u64);
+	if let Some(p) = x {
+		xrecord(S_MMAP, p, len as u64, if r == libc::MAP_FAILED { -1 } else { 0 }, false, vec![]);
+	}
 	r
 }
 
 #[no_mangle]
 pub unsafe extern "C" fn mmap64(addr: *mut c_void, len: size_t, prot: c_int, flags: c_int, fd: c_int, off: libc::off64_t) -> *mut c_void {
 	let f = real_fn!("mmap64", unsafe extern "C" fn(*mut c_void, size_t, c_int, c_int, c_int, libc::off64_t) -> *mut c_void);
+	let x = if fd >= 0 && flags & libc::MAP_ANONYMOUS == 0 { xpath_fd(fd) } else { None };
+	if let Some(p) = &x {
+		if let Some(e) = inject(S_MMAP, p) {
+			fail_int(S_MMAP, p, len as u64, e);
+			return libc::MAP_FAILED
+		}
+	}
 	let r = f(addr, len, prot, flags, fd, off);
 	note_mmap(r, len, flags, fd, off as u64);
+	if let Some(p) = x {
+		xrecord(S_MMAP, p, len as u64, if r == libc::MAP_FAILED { -1 } else { 0 }, false, vec![]);
+	}
 	r
 }
 
@@ -228,6 +322,20 @@ pub unsafe extern "C" fn munmap(addr: *mut c_void, len: size_t) -> c_int {
 #[no_mangle]
 pub unsafe extern "C" fn msync(addr: *mut c_void, len: size_t, flags: c_int) -> c_int {
 	let f = real_fn!("msync", unsafe extern "C" fn(*mut c_void, size_t, c_int) -> c_int);
+	let x = if xon() {
+		let a = addr as usize;
+		let m = MAPS.lock().unwrap_or_else(|e| e.into_inner());
+		let p = m.iter().rev().find(|(base, l, _, _)| *base <= a && a < *base + *l).map(|(_, _, p, _)| p.clone());
+		drop(m);
+		p.filter(|p| under_dir(p))
+	} else {
+		None
+	};
+	if let Some(p) = &x {
+		if let Some(e) = inject(S_MSYNC, p) {
+			return fail_int(S_MSYNC, p, len as u64, e)
+		}
+	}
 	let r = f(addr, len, flags);
 	if enabled() {
 		let a = addr as usize;
@@ -238,5 +346,506 @@ pub unsafe extern "C" fn msync(addr: *mut c_void, len: size_t, flags: c_int) -> 
 		let (path, off) = hit.unwrap_or_else(|| ("?".into(), 0));
 		record(Call::Msync { off, len: len as u64 }, path, r as i64);
 	}
+	if let Some(p) = x {
+		xrecord(S_MSYNC, p, len as u64, r as i64, false, vec![]);
+	}
 	r
 }
+
+// ===================================================================================
+// Extended journal and errno injection (used by c16t only; everything below is inert
+// until `xenable(Some(dir))` / `arm(..)` are called).
+// ===================================================================================
+
+pub const S_WRITE: u32 = 1 << 0;
+pub const S_READ: u32 = 1 << 1;
+pub const S_CREATE: u32 = 1 << 2;
+pub const S_TRUNC: u32 = 1 << 3;
+pub const S_FDATASYNC: u32 = 1 << 4;
+pub const S_FSYNC: u32 = 1 << 5;
+pub const S_UNLINK: u32 = 1 << 6;
+pub const S_MMAP: u32 = 1 << 7;
+pub const S_SEEK: u32 = 1 << 8;
+pub const S_MSYNC: u32 = 1 << 9;
+/// open without O_CREAT (journalled, matched only when explicitly planned)
+pub const S_OPEN: u32 = 1 << 10;
+pub const S_ALL: u32 = (1 << 11) - 1;
+
+pub const F_LOG: u32 = 1 << 0;
+pub const F_INDEX: u32 = 1 << 1;
+pub const F_TABLE: u32 = 1 << 2;
+pub const F_REFCOUNT: u32 = 1 << 3;
+pub const F_META: u32 = 1 << 4;
+pub const F_OTHER: u32 = 1 << 5;
+pub const F_ALL: u32 = (1 << 6) - 1;
+
+pub fn sys_name(s: u32) -> &'static str {
+	match s {
+		S_WRITE => "write",
+		S_READ => "read",
+		S_CREATE => "create",
+		S_TRUNC => "ftruncate",
+		S_FDATASYNC => "fdatasync",
+		S_FSYNC => "fsync",
+		S_UNLINK => "unlink",
+		S_MMAP => "mmap",
+		S_SEEK => "lseek",
+		S_MSYNC => "msync",
+		S_OPEN => "open",
+		_ => "?",
+	}
+}
+
+pub fn fc_name(f: u32) -> &'static str {
+	match f {
+		F_LOG => "log",
+		F_INDEX => "index",
+		F_TABLE => "table",
+		F_REFCOUNT => "refcount",
+		F_META => "metadata",
+		_ => "other",
+	}
+}
+
+/// File class from the file name: log*, index_*, table_*, refcount_*, metadata.
+pub fn file_class(name: &str) -> u32 {
+	if name.starts_with("log") && name[3..].bytes().all(|b| b.is_ascii_digit()) && name.len() > 3 {
+		F_LOG
+	} else if name.starts_with("index_") {
+		F_INDEX
+	} else if name.starts_with("table_") {
+		F_TABLE
+	} else if name.starts_with("refcount_") {
+		F_REFCOUNT
+	} else if name.starts_with("metadata") {
+		F_META
+	} else {
+		F_OTHER
+	}
+}
+
+#[derive(Clone, Debug)]
+pub struct XEvent {
+	pub seq: u64,
+	/// microseconds since `xenable`
+	pub us: u64,
+	pub tid: i32,
+	pub sys: u32,
+	pub fc: u32,
+	/// file name (last path component)
+	pub name: String,
+	/// length / count / offset argument of the call
+	pub arg: u64,
+	pub ret: i64,
+	/// errno planted (injected failures only)
+	pub errno: i32,
+	pub injected: bool,
+	/// for writes to log files: the 16 bytes following each occurrence of the needle
+	pub hits: Vec<[u8; 16]>,
+}
+
+static XON: AtomicBool = AtomicBool::new(false);
+static XSEQ: AtomicU64 = AtomicU64::new(0);
+static XJOURNAL: Mutex<Vec<XEvent>> = Mutex::new(Vec::new());
+static XDIR: Mutex<String> = Mutex::new(String::new());
+static XNEEDLE: Mutex<Vec<u8>> = Mutex::new(Vec::new());
+static XT0: Mutex<Option<std::time::Instant>> = Mutex::new(None);
+
+static PLAN_ON: AtomicBool = AtomicBool::new(false);
+static PLAN_SYS: std::sync::atomic::AtomicU32 = std::sync::atomic::AtomicU32::new(0);
+static PLAN_FC: std::sync::atomic::AtomicU32 = std::sync::atomic::AtomicU32::new(0);
+static PLAN_SKIP: std::sync::atomic::AtomicI64 = std::sync::atomic::AtomicI64::new(0);
+static PLAN_ERRNO: std::sync::atomic::AtomicI32 = std::sync::atomic::AtomicI32::new(0);
+static PLAN_ALL_THREADS: AtomicBool = AtomicBool::new(false);
+static PLAN_DELAY_US: AtomicU64 = AtomicU64::new(0);
+static LAT_SYS: std::sync::atomic::AtomicU32 = std::sync::atomic::AtomicU32::new(0);
+static LAT_FC: std::sync::atomic::AtomicU32 = std::sync::atomic::AtomicU32::new(0);
+static LAT_US: AtomicU64 = AtomicU64::new(0);
+static PLAN_MATCHED: AtomicU64 = AtomicU64::new(0);
+static PLAN_FAILED: AtomicU64 = AtomicU64::new(0);
+/// microseconds (since `xenable`) of the first injected failure + 1; 0 = none yet
+static FIRST_FAIL_US: AtomicU64 = AtomicU64::new(0);
+const NO_TID: i32 = 0;
+#[allow(clippy::declare_interior_mutable_const)]
+const EXEMPT_INIT: std::sync::atomic::AtomicI32 = std::sync::atomic::AtomicI32::new(NO_TID);
+static EXEMPT: [std::sync::atomic::AtomicI32; 32] = [EXEMPT_INIT; 32];
+
+#[inline]
+fn xon() -> bool {
+	XON.load(Ordering::Relaxed)
+}
+
+pub fn gettid() -> i32 {
+	unsafe { libc::syscall(libc::SYS_gettid) as i32 }
+}
+
+/// Switch the extended journal on for files below `dir` (absolute path), or off (`None`).
+pub fn xenable(dir: Option<&str>) {
+	match dir {
+		Some(d) => {
+			let mut s = d.trim_end_matches('/').to_string();
+			s.push('/');
+			*XDIR.lock().unwrap_or_else(|e| e.into_inner()) = s;
+			*XT0.lock().unwrap_or_else(|e| e.into_inner()) = Some(std::time::Instant::now());
+			XON.store(true, Ordering::SeqCst);
+		},
+		None => {
+			XON.store(false, Ordering::SeqCst);
+			disarm();
+			set_latency(0, 0, 0);
+		},
+	}
+}
+
+/// Writes to log files are searched for this byte string; the 16 bytes after each occurrence
+/// are attached to the event.
+pub fn set_needle(n: &[u8]) {
+	*XNEEDLE.lock().unwrap_or_else(|e| e.into_inner()) = n.to_vec();
+}
+
+/// The first injected failure recorded so far (the journal is left as it is).
+pub fn xfirst_injected() -> Option<XEvent> {
+	XJOURNAL.lock().unwrap_or_else(|e| e.into_inner()).iter().find(|e| e.injected).cloned()
+}
+
+pub fn xdrain() -> Vec<XEvent> {
+	std::mem::take(&mut *XJOURNAL.lock().unwrap_or_else(|e| e.into_inner()))
+}
+
+fn now_us() -> u64 {
+	XT0.lock().unwrap_or_else(|e| e.into_inner()).map(|t| t.elapsed().as_micros() as u64).unwrap_or(0)
+}
+
+/// Calls of the current thread never fail by injection (unless the plan says all threads).
+pub fn exempt_current_thread() {
+	let tid = gettid();
+	for s in EXEMPT.iter() {
+		if s.compare_exchange(NO_TID, tid, Ordering::SeqCst, Ordering::SeqCst).is_ok() {
+			return
+		}
+	}
+}
+
+fn is_exempt(tid: i32) -> bool {
+	EXEMPT.iter().any(|s| s.load(Ordering::Relaxed) == tid)
+}
+
+/// Arm the plan: the first `skip` matching calls pass, every later one fails with `errno`
+/// after `delay_us` microseconds (a failing device is slow).
+pub fn arm(sys_mask: u32, fc_mask: u32, skip: u64, errno: i32, all_threads: bool, delay_us: u64) {
+	PLAN_DELAY_US.store(delay_us, Ordering::SeqCst);
+	PLAN_SYS.store(sys_mask, Ordering::SeqCst);
+	PLAN_FC.store(fc_mask, Ordering::SeqCst);
+	PLAN_SKIP.store(skip as i64, Ordering::SeqCst);
+	PLAN_ERRNO.store(errno, Ordering::SeqCst);
+	PLAN_ALL_THREADS.store(all_threads, Ordering::SeqCst);
+	PLAN_MATCHED.store(0, Ordering::SeqCst);
+	PLAN_FAILED.store(0, Ordering::SeqCst);
+	PLAN_ON.store(true, Ordering::SeqCst);
+}
+
+pub fn disarm() {
+	PLAN_ON.store(false, Ordering::SeqCst);
+}
+
+/// Slow device: every matching call of a non-exempt thread takes `us` microseconds longer
+/// (tmpfs answers an fdatasync in microseconds, a disk in milliseconds).  `us = 0` switches it off.
+pub fn set_latency(sys_mask: u32, fc_mask: u32, us: u64) {
+	LAT_SYS.store(sys_mask, Ordering::SeqCst);
+	LAT_FC.store(fc_mask, Ordering::SeqCst);
+	LAT_US.store(us, Ordering::SeqCst);
+}
+
+fn sleep_us(d: u64) {
+	let ts = libc::timespec { tv_sec: (d / 1_000_000) as libc::time_t, tv_nsec: ((d % 1_000_000) * 1000) as libc::c_long };
+	unsafe {
+		libc::nanosleep(&ts, std::ptr::null_mut());
+	}
+}
+
+pub fn armed() -> bool {
+	PLAN_ON.load(Ordering::SeqCst)
+}
+
+/// (matching calls seen since `arm`, calls failed by injection, microseconds of the first failure)
+pub fn plan_stats() -> (u64, u64, Option<u64>) {
+	let f = FIRST_FAIL_US.load(Ordering::SeqCst);
+	(PLAN_MATCHED.load(Ordering::SeqCst), PLAN_FAILED.load(Ordering::SeqCst), if f == 0 { None } else { Some(f - 1) })
+}
+
+pub fn xreset() {
+	xdrain();
+	FIRST_FAIL_US.store(0, Ordering::SeqCst);
+	for s in EXEMPT.iter() {
+		s.store(NO_TID, Ordering::SeqCst);
+	}
+}
+
+fn under_dir(path: &str) -> bool {
+	let d = XDIR.lock().unwrap_or_else(|e| e.into_inner());
+	!d.is_empty() && path.starts_with(d.as_str())
+}
+
+/// Path of `fd` if the extended journal is on and the file lies below the watched directory.
+fn xpath_fd(fd: c_int) -> Option<String> {
+	if !xon() || fd <= 2 {
+		return None
+	}
+	let p = fd_path(fd);
+	if under_dir(&p) {
+		Some(p)
+	} else {
+		None
+	}
+}
+
+fn xpath_str(f: impl FnOnce() -> String) -> Option<String> {
+	if !xon() {
+		return None
+	}
+	let p = f();
+	if under_dir(&p) {
+		Some(p)
+	} else {
+		None
+	}
+}
+
+fn name_of(path: &str) -> &str {
+	path.rsplit('/').next().unwrap_or("")
+}
+
+/// Decide whether this call fails; `Some(errno)` if so.
+fn inject(sys: u32, path: &str) -> Option<i32> {
+	let lat = LAT_US.load(Ordering::Relaxed);
+	if lat > 0 &&
+		LAT_SYS.load(Ordering::Relaxed) & sys != 0 &&
+		LAT_FC.load(Ordering::Relaxed) & file_class(name_of(path)) != 0 &&
+		!is_exempt(gettid())
+	{
+		sleep_us(lat);
+	}
+	if !PLAN_ON.load(Ordering::Relaxed) {
+		return None
+	}
+	if PLAN_SYS.load(Ordering::Relaxed) & sys == 0 {
+		return None
+	}
+	if PLAN_FC.load(Ordering::Relaxed) & file_class(name_of(path)) == 0 {
+		return None
+	}
+	if !PLAN_ALL_THREADS.load(Ordering::Relaxed) && is_exempt(gettid()) {
+		return None
+	}
+	PLAN_MATCHED.fetch_add(1, Ordering::SeqCst);
+	if PLAN_SKIP.fetch_sub(1, Ordering::SeqCst) > 0 {
+		return None
+	}
+	PLAN_FAILED.fetch_add(1, Ordering::SeqCst);
+	let d = PLAN_DELAY_US.load(Ordering::Relaxed);
+	if d > 0 {
+		sleep_us(d);
+	}
+	Some(PLAN_ERRNO.load(Ordering::Relaxed))
+}
+
+fn xrecord(sys: u32, path: String, arg: u64, ret: i64, injected: bool, hits: Vec<[u8; 16]>) {
+	let us = now_us();
+	let errno = if injected { PLAN_ERRNO.load(Ordering::Relaxed) } else { 0 };
+	if injected {
+		let _ = FIRST_FAIL_US.compare_exchange(0, us + 1, Ordering::SeqCst, Ordering::SeqCst);
+	}
+	let name = name_of(&path).to_string();
+	let fc = file_class(&name);
+	let tid = gettid();
+	let mut j = XJOURNAL.lock().unwrap_or_else(|e| e.into_inner());
+	let seq = XSEQ.fetch_add(1, Ordering::SeqCst);
+	j.push(XEvent { seq, us, tid, sys, fc, name, arg, ret, errno, injected, hits });
+}
+
+unsafe fn fail_int(sys: u32, path: &str, arg: u64, errno: i32) -> c_int {
+	xrecord(sys, path.to_string(), arg, -1, true, vec![]);
+	*libc::__errno_location() = errno;
+	-1
+}
+
+fn scan_needle(buf: &[u8]) -> Vec<[u8; 16]> {
+	let n = XNEEDLE.lock().unwrap_or_else(|e| e.into_inner());
+	let mut out = vec![];
+	if n.is_empty() || buf.len() < n.len() + 16 {
+		return out
+	}
+	let first = n[0];
+	let mut i = 0;
+	let last = buf.len() - n.len() - 16;
+	while i <= last {
+		if buf[i] == first && &buf[i..i + n.len()] == n.as_slice() {
+			let mut h = [0u8; 16];
+			h.copy_from_slice(&buf[i + n.len()..i + n.len() + 16]);
+			out.push(h);
+			i += n.len() + 16;
+		} else {
+			i += 1;
+		}
+	}
+	out
+}
+
+#[no_mangle]
+pub unsafe extern "C" fn write(fd: c_int, buf: *const c_void, count: size_t) -> libc::ssize_t {
+	let f = real_fn!("write", unsafe extern "C" fn(c_int, *const c_void, size_t) -> libc::ssize_t);
+	let x = xpath_fd(fd);
+	if let Some(p) = &x {
+		if let Some(e) = inject(S_WRITE, p) {
+			return fail_int(S_WRITE, p, count as u64, e) as libc::ssize_t
+		}
+	}
+	let r = f(fd, buf, count);
+	if let Some(p) = x {
+		let hits = if r > 0 && file_class(name_of(&p)) == F_LOG && !buf.is_null() {
+			scan_needle(std::slice::from_raw_parts(buf as *const u8, r as usize))
+		} else {
+			vec![]
+		};
+		xrecord(S_WRITE, p, count as u64, r as i64, false, hits);
+	}
+	r
+}
+
+macro_rules! pwrite_like {
+	($name:ident, $lit:literal, $off:ty) => {
+		#[no_mangle]
+		pub unsafe extern "C" fn $name(fd: c_int, buf: *const c_void, count: size_t, off: $off) -> libc::ssize_t {
+			let f = real_fn!($lit, unsafe extern "C" fn(c_int, *const c_void, size_t, $off) -> libc::ssize_t);
+			let x = xpath_fd(fd);
+			if let Some(p) = &x {
+				if let Some(e) = inject(S_WRITE, p) {
+					return fail_int(S_WRITE, p, count as u64, e) as libc::ssize_t
+				}
+			}
+			let r = f(fd, buf, count, off);
+			if let Some(p) = x {
+				xrecord(S_WRITE, p, count as u64, r as i64, false, vec![]);
+			}
+			r
+		}
+	};
+}
+pwrite_like!(pwrite, "pwrite", off_t);
+pwrite_like!(pwrite64, "pwrite64", libc::off64_t);
+
+#[no_mangle]
+pub unsafe extern "C" fn read(fd: c_int, buf: *mut c_void, count: size_t) -> libc::ssize_t {
+	let f = real_fn!("read", unsafe extern "C" fn(c_int, *mut c_void, size_t) -> libc::ssize_t);
+	let x = xpath_fd(fd);
+	if let Some(p) = &x {
+		if let Some(e) = inject(S_READ, p) {
+			return fail_int(S_READ, p, count as u64, e) as libc::ssize_t
+		}
+	}
+	let r = f(fd, buf, count);
+	if let Some(p) = x {
+		xrecord(S_READ, p, count as u64, r as i64, false, vec![]);
+	}
+	r
+}
+
+macro_rules! pread_like {
+	($name:ident, $lit:literal, $off:ty) => {
+		#[no_mangle]
+		pub unsafe extern "C" fn $name(fd: c_int, buf: *mut c_void, count: size_t, off: $off) -> libc::ssize_t {
+			let f = real_fn!($lit, unsafe extern "C" fn(c_int, *mut c_void, size_t, $off) -> libc::ssize_t);
+			let x = xpath_fd(fd);
+			if let Some(p) = &x {
+				if let Some(e) = inject(S_READ, p) {
+					return fail_int(S_READ, p, count as u64, e) as libc::ssize_t
+				}
+			}
+			let r = f(fd, buf, count, off);
+			if let Some(p) = x {
+				xrecord(S_READ, p, count as u64, r as i64, false, vec![]);
+			}
+			r
+		}
+	};
+}
+pread_like!(pread, "pread", off_t);
+pread_like!(pread64, "pread64", libc::off64_t);
+
+macro_rules! lseek_like {
+	($name:ident, $lit:literal, $off:ty) => {
+		#[no_mangle]
+		pub unsafe extern "C" fn $name(fd: c_int, off: $off, whence: c_int) -> $off {
+			let f = real_fn!($lit, unsafe extern "C" fn(c_int, $off, c_int) -> $off);
+			let x = xpath_fd(fd);
+			if let Some(p) = &x {
+				if let Some(e) = inject(S_SEEK, p) {
+					return fail_int(S_SEEK, p, off as u64, e) as $off
+				}
+			}
+			let r = f(fd, off, whence);
+			if let Some(p) = x {
+				xrecord(S_SEEK, p, off as u64, r as i64, false, vec![]);
+			}
+			r
+		}
+	};
+}
+lseek_like!(lseek, "lseek", off_t);
+lseek_like!(lseek64, "lseek64", libc::off64_t);
+
+// `open` is variadic in C; on x86_64 and aarch64 a third integer argument is passed the same
+// way whether or not the callee is declared variadic, and reading it when the caller passed
+// none is harmless (it is only forwarded).
+macro_rules! open_like {
+	($name:ident, $lit:literal) => {
+		#[no_mangle]
+		pub unsafe extern "C" fn $name(path: *const c_char, flags: c_int, mode: libc::mode_t) -> c_int {
+			let f = real_fn!($lit, unsafe extern "C" fn(*const c_char, c_int, libc::mode_t) -> c_int);
+			let sys = if flags & libc::O_CREAT != 0 { S_CREATE } else { S_OPEN };
+			let x = xpath_str(|| cstr(path));
+			if let Some(p) = &x {
+				if let Some(e) = inject(sys, p) {
+					return fail_int(sys, p, flags as u64, e)
+				}
+			}
+			let r = f(path, flags, mode);
+			if let Some(p) = x {
+				xrecord(sys, p, flags as u64, r as i64, false, vec![]);
+			}
+			r
+		}
+	};
+}
+open_like!(open, "open");
+open_like!(open64, "open64");
+
+macro_rules! openat_like {
+	($name:ident, $lit:literal) => {
+		#[no_mangle]
+		pub unsafe extern "C" fn $name(dirfd: c_int, path: *const c_char, flags: c_int, mode: libc::mode_t) -> c_int {
+			let f = real_fn!($lit, unsafe extern "C" fn(c_int, *const c_char, c_int, libc::mode_t) -> c_int);
+			let sys = if flags & libc::O_CREAT != 0 { S_CREATE } else { S_OPEN };
+			let x = xpath_str(|| {
+				let p = cstr(path);
+				if p.starts_with('/') || dirfd == libc::AT_FDCWD {
+					p
+				} else {
+					format!("{}/{}", fd_path(dirfd), p)
+				}
+			});
+			if let Some(p) = &x {
+				if let Some(e) = inject(sys, p) {
+					return fail_int(sys, p, flags as u64, e)
+				}
+			}
+			let r = f(dirfd, path, flags, mode);
+			if let Some(p) = x {
+				xrecord(sys, p, flags as u64, r as i64, false, vec![]);
+			}
+			r
+		}
+	};
+}
+openat_like!(openat, "openat");
+openat_like!(openat64, "openat64");
